@@ -313,6 +313,71 @@ def run(ctx, res):
                 res.disagree("tape_mutations", dict(case, action=act), mo["status"], impl + " | " + r["err"][-160:])
     res.sample({"tape_mutation": tjobs[0][1]})
     scaling(ctx, res)
+    links_at_destination(ctx, res)
+
+
+def links_at_destination(ctx, res):
+    """extract over a destination that already holds links under the members' names — a symbolic link to a file elsewhere, a
+    dangling symbolic link, a hard link of a file elsewhere (what an earlier result may have been replaced by): extract creates or
+    modifies files only inside the destination, so the link is replaced by the member and nothing elsewhere changes (defect F30)"""
+    rng = ctx.rng
+    st = res.stream("links_at_destination")
+    for i in range(ctx.n(18, 120)):
+        kind = ["k7", "fd", "sd"][i % 3]
+        arena = ctx.fresh_dir()
+        work = os.path.join(arena, "work")
+        els = os.path.join(arena, "elsewhere")
+        os.makedirs(work)
+        os.makedirs(els)
+        members = [("notes.txt", b"content coming from the archive\n" * rng.choice([1, 40])), ("new.dat", bytes(rng.randrange(256) for _ in range(rng.choice([0, 5, 300])))),
+                   ("third.bin", b"3")]
+        for n, c in members:
+            with open(os.path.join(work, n), "wb") as f:
+                f.write(c)
+        arc = "a." + kind
+        if kind == "k7":
+            r = T.tar(["-c", arc] + [n for n, _ in members], cwd=work)
+        else:
+            r = D.dar(kind, ["-c", arc] + [n for n, _ in members], cwd=work)
+        into = rng.choice([None, "dest"])
+        dest = os.path.join(work, into) if into else work
+        dest = dest if kind == "k7" else os.path.join(dest, "side0")
+        os.makedirs(dest, exist_ok=True)
+        outside = {"precious.txt": b"precious bytes\n", "hard.bin": b"hard linked bytes"}
+        for n, c in outside.items():
+            with open(os.path.join(els, n), "wb") as f:
+                f.write(c)
+        plan = rng.choice([("symlink", "dangling", "hardlink"), ("hardlink", "symlink", "dangling"), ("dangling", "hardlink", "symlink"), ("symlink", "symlink", "regular")])
+        for (n, _), how in zip(members, plan):
+            t = os.path.join(dest, n.upper())
+            if os.path.lexists(t):
+                os.unlink(t)
+            if how == "symlink":
+                os.symlink(os.path.join(els, "precious.txt"), t)
+            elif how == "dangling":
+                os.symlink(os.path.join(els, "created-" + n), t)
+            elif how == "hardlink":
+                os.link(os.path.join(els, "hard.bin"), t)
+            else:
+                with open(t, "wb") as f:
+                    f.write(b"an earlier regular result, longer than the member " * 20)
+        args = ["-x"] + (["--into", into] if into else []) + [arc]
+        status, out = (T.tar(args, cwd=work) if kind == "k7" else D.dar(kind, args, cwd=work))
+        case = {"kind": kind, "into": into, "plan": plan}
+        st.see(case)
+        res.count(f"links:{kind}:{status}")
+        after = {n: (open(os.path.join(els, n), "rb").read()) for n in os.listdir(els)}
+        if after != outside:
+            changed = sorted(k for k in set(after) | set(outside) if after.get(k) != outside.get(k))
+            res.violate("links_at_destination", "a file was created or modified outside the destination directory", case, changed, {"clause": "confined"})
+        if status != "ok0":
+            res.violate("links_at_destination", "extract failed over earlier results at the destination", case, status, {"clause": "status"})
+            continue
+        for n, c in members:
+            t = os.path.join(dest, n.upper())
+            if os.path.islink(t) or not os.path.isfile(t) or open(t, "rb").read() != c:
+                res.violate("links_at_destination", "a member was not extracted as a file of the destination", case, n, {"clause": "member_bytes"})
+                break
 
 
 def scaling(ctx, res):
